@@ -575,3 +575,55 @@ Proof.
   destruct (through (c_wraps c) (MLevel (ev_level ev))); auto.
   unfold single_err. rewrite Ho. destruct (through (d_wraps d) m); reflexivity.
 Qed.
+
+(* ------------------------------------------------------------------ *)
+(* the statements of Properties/C14.v                                  *)
+(* ------------------------------------------------------------------ *)
+
+Lemma log_level_dest c om d evs :
+  c_wraps c = [] -> c_kind c = KMulti -> enabled evs ->
+  nth_error (c_dests c) d = Some {| d_wraps := []; d_leaf := LLevel |} ->
+  calls_of d (concat (run c om evs)) = map (fun ev => (MLevel (ev_level ev), ev_bytes ev)) evs.
+Proof. intros. rewrite every_destination_once. apply deliver_level_dest; assumption. Qed.
+
+Lemma log_plain_dest c om d ws evs :
+  c_wraps c = [] -> c_kind c = KMulti -> enabled evs ->
+  (forall w, In w ws -> w = WSync \/ w = WAdapter) ->
+  nth_error (c_dests c) d = Some {| d_wraps := ws; d_leaf := LPlain |} ->
+  calls_of d (concat (run c om evs)) = map (fun ev => (MWrite, ev_bytes ev)) evs.
+Proof. intros. rewrite every_destination_once. eapply deliver_plain_dest; eassumption. Qed.
+
+Lemma log_filtered_dest c om d min evs :
+  c_wraps c = [] -> c_kind c = KMulti -> enabled evs ->
+  nth_error (c_dests c) d = Some {| d_wraps := [WFiltered min]; d_leaf := LLevel |} ->
+  calls_of d (concat (run c om evs)) =
+  map (fun ev => (MLevel (ev_level ev), ev_bytes ev)) (filter (fun ev => min <=? ev_level ev) evs).
+Proof. intros. rewrite every_destination_once. apply deliver_filtered_dest; assumption. Qed.
+
+Lemma log_filtered_plain_dest c om d min evs :
+  c_wraps c = [] -> c_kind c = KMulti -> enabled evs ->
+  nth_error (c_dests c) d = Some {| d_wraps := [WFiltered min; WAdapter]; d_leaf := LPlain |} ->
+  calls_of d (concat (run c om evs)) =
+  map (fun ev => (MWrite, ev_bytes ev)) (filter (fun ev => min <=? ev_level ev) evs).
+Proof. intros. rewrite every_destination_once. apply deliver_filtered_plain_dest; assumption. Qed.
+
+Lemma log_filtered_via_write c om d min evs :
+  c_wraps c = [WAdapter] -> c_kind c = KMulti -> enabled evs ->
+  nth_error (c_dests c) d = Some {| d_wraps := [WFiltered min]; d_leaf := LLevel |} ->
+  calls_of d (concat (run c om evs)) = map (fun ev => (MWrite, ev_bytes ev)) evs.
+Proof. intros. rewrite every_destination_once. eapply deliver_filtered_via_write; eassumption. Qed.
+
+Lemma first_fail_is_first ds m p o e :
+  first_fail ds 0%nat m p o = Some e ->
+  exists k d, nth_error ds k = Some d /\ dest_err d m p (o k) = Some e /\
+              forall j dj, (j < k)%nat -> nth_error ds j = Some dj -> dest_err dj m p (o j) = None.
+Proof. intros H. exact (first_fail_some ds 0%nat m p o e H). Qed.
+
+Lemma no_failure_no_error ds m p o :
+  first_fail ds 0%nat m p o = None <->
+  forall k d, nth_error ds k = Some d -> dest_err d m p (o k) = None.
+Proof. exact (first_fail_none ds 0%nat m p o). Qed.
+
+Lemma no_failure_full_length ds m p o :
+  ds <> [] -> first_fail ds 0%nat m p o = None -> fst (snd (multi_write ds m p o)) = blen p.
+Proof. intros Hd Hf. unfold multi_write. apply multi_loop_n; auto. Qed.
